@@ -26,6 +26,7 @@ type drv struct {
 	c       baseAPI
 	raw     any  // the concrete container (for set algebra between two drivers)
 	crashed bool // a mutator / constructor / observer panicked
+	natural bool // construct with the comparator-less New() (natural order; JSON-reload containers only)
 
 	// comparators handed to the container (nil for kinds without comparator)
 	kf, vf cmpFn
@@ -117,7 +118,13 @@ func newLike(d *drv) *drv {
 
 // newFresh constructs a fresh empty container of the same configuration with its own
 // comparators (JSON reload check).
-func newFresh(d *drv) *drv { return newDrv(d.cfg) }
+func newFresh(d *drv) *drv {
+	n := &drv{cfg: d.cfg, calls: new(int), natural: naturalOrder(d.cfg)}
+	n.kf = countingComparator(d.cfg.KCmp, n.calls)
+	n.vf = comparator(d.cfg.VCmp)
+	construct(n)
+	return n
+}
 
 func construct(d *drv) {
 	switch d.cfg.Kind {
